@@ -28,7 +28,7 @@ ASSUMPTIONS = [
     "Float rounding is not modelled; the verdict is about the implemented formula, not floating-point results.",
 ]
 EXHAUSTIVE = True
-FLOORS = {"R12.1": 400, "R12.2": 9, "R12.3": 1, "R12.4": 8}
+FLOORS = {"R12.1": 400, "R12.2": 9, "R12.3": 1, "R12.4": 7, "R12.5": 200}
 
 PX = {"": Fraction(1), "px": Fraction(1), "pt": Fraction(4, 3), "pc": Fraction(16)}
 INCH = {"in": Fraction(1), "cm": Fraction(100, 254), "mm": Fraction(10, 254)}
@@ -351,27 +351,110 @@ def plumbing(ctx):
     aug = [s for s in ast.walk(add) if isinstance(s, ast.AugAssign)]
     ok = len(aug) == 1 and isinstance(aug[0].op, ast.Add) and ast.unparse(aug[0].target) != "self" and ast.unparse(aug[0].value) == "other"
     ctx.ob("R12.4", "Length.__add__", ok, "; ".join(ast.unparse(a) for a in aug), add.lineno, "a + b must add b in place to a copy of a")
-    # __eq__: each comparison pairs self.in_X() with other.in_X()
+    equality(ctx)
+
+
+def equality(ctx):
+    """Length.__eq__ read as a table: for every ordered unit pair, with (a) amounts that resolve to the same value and
+    (b) independent amounts, the selected return must be True exactly in case (a) when both units resolve in one family."""
     eq = ctx.fn("Length.__eq__", "R12.5")
-    binds = {}
-    for s in ast.walk(eq):
-        if isinstance(s, ast.Assign) and isinstance(s.value, ast.Call) and isinstance(s.value.func, ast.Attribute) \
-                and s.value.func.attr in ("in_pixels", "in_inches") and isinstance(s.targets[0], ast.Name):
-            binds.setdefault(s.targets[0].id, []).append((s.lineno, ast.unparse(s.value.func.value), s.value.func.attr))
-    ctx.need("s" in binds or binds, "R12.5", "Length.__eq__: conversions not found")
-    # pair them in program order: every other.in_X must follow a self.in_X of the same X
-    events = sorted((ln, who, what) for v in binds.values() for (ln, who, what) in v)
-    cur = None
-    n_pairs = 0
-    for ln, who, what in events:
-        if who == "self":
-            cur = what
-        else:
-            n_pairs += 1
-            ctx.ob("R12.5", "Length.__eq__[%s]" % what, cur == what, "self side %s, other side %s" % (cur, what), ln,
-                   "equality compares values converted to different unit systems")
-    ctx.need(n_pairs >= 2, "R12.5", "Length.__eq__: fewer than two conversion pairs")
-    for c in ast.walk(eq):
-        if isinstance(c, ast.Compare) and isinstance(c.left, ast.Call) and isinstance(c.left.func, ast.Name) and c.left.func.id == "abs":
-            ok = isinstance(c.ops[0], (ast.LtE, ast.Lt)) and ast.unparse(c.comparators[0]) == "ERROR"
-            ctx.ob("R12.5", "Length.__eq__[tolerance %s]" % ast.unparse(c.left), ok, ast.unparse(c), c.lineno, "difference must be bounded above by ERROR")
+    tables = {}
+    for qual, table in (("in_pixels", PX), ("in_inches", INCH)):
+        tables[qual] = table
+    body = [s for s in eq.body if not (isinstance(s, ast.Expr) and isinstance(s.value, ast.Constant))]
+    n = 0
+    for su in UNITS:
+        for ou in UNITS:
+            same_family = fam(su) == fam(ou) and fam(su) in ("px", "in")
+            for equal_values in (True, False):
+                if equal_values and not (same_family or su == ou):
+                    continue
+                a_s = atom("self.amount")
+                if equal_values:
+                    a_o = a_s if su == ou else a_s * R(su) / R(ou)
+                else:
+                    a_o = atom("other.amount")
+                facts = Facts(strs={"self.units": su, "other.units": ou}, nulls={"other": False}, types={"other": "Length"})
+                alg = Alg(atom_map={"other.amount": a_o})
+
+                def on_assign(stmt, facts, alg):
+                    v = stmt.value if isinstance(stmt, ast.Assign) else None
+                    if isinstance(v, ast.Call) and isinstance(v.func, ast.Attribute) and v.func.attr in tables and isinstance(stmt.targets[0], ast.Name) and not v.args:
+                        who = ast.unparse(v.func.value)
+                        unit = facts.strs.get("%s.units" % who)
+                        tab = tables[v.func.attr]
+                        tgt = stmt.targets[0].id
+                        if unit in tab:
+                            facts.nulls[tgt] = False
+                            amt = alg.ev(ast.parse("%s.amount" % who, mode="eval").body)
+                            alg.env[tgt] = amt * const(tab[unit])
+                        else:
+                            facts.nulls[tgt] = True
+                            alg.env.pop(tgt, None)
+                        return True
+                    return False
+
+                def on_test(test, facts, alg):
+                    src = ast.unparse(test)
+                    if isinstance(test, ast.Compare) and isinstance(test.left, ast.Call) and isinstance(test.left.func, ast.Name) and test.left.func.id == "abs" \
+                            and isinstance(test.ops[0], (ast.LtE, ast.Lt)) and ast.unparse(test.comparators[0]) == "ERROR":
+                        d = test.left.args[0]
+                        if isinstance(d, ast.BinOp) and isinstance(d.op, ast.Sub):
+                            return approx_eq(alg.ev(d.left), alg.ev(d.right))
+                    if src.replace(" ", "") in ("self.amount==other.amountandself.units==other.units", "self.units==other.unitsandself.amount==other.amount"):
+                        return facts.strs["self.units"] == facts.strs["other.units"] and alg.ev(ast.parse("self.amount", mode="eval").body) == alg.ev(ast.parse("other.amount", mode="eval").body)
+                    return None
+
+                cons = "Length.__eq__[%s==%s,%s]" % (su or "''", ou or "''", "equal values" if equal_values else "independent amounts")
+                out = walk(body, facts, alg, ctx.m, "R12.5", cons, on_assign=on_assign, on_test=on_test)
+                n += 1
+                if out.kind != "return" or not isinstance(out.node, ast.Constant) or not isinstance(out.node.value, bool):
+                    ctx.ob("R12.5", cons, False, "result %s" % (ast.unparse(out.node) if out.node is not None else out.kind), eq.lineno, "equality must answer True or False")
+                    continue
+                want = equal_values
+                ctx.ob("R12.5", cons, out.node.value == want, "answers %s" % out.node.value, out.stmt.lineno,
+                       "a == b must hold exactly when both lengths resolve to the same value", sample=(su == "pt" and ou == "pc"))
+    ctx.need(n >= 200, "R12.5", "too few equality cells (%d)" % n)
+    # Length == number: the number is in user units (px)
+    from ..dispatch import decide
+
+    for su in UNITS:
+        for case in ("equal", "different", "both zero"):
+            if su not in PX and case == "equal":
+                continue
+            a_s = const(0) if case == "both zero" else atom("self.amount")
+            other = {"equal": a_s * R(su) if su in PX else None, "different": atom("other"), "both zero": const(0)}[case]
+            facts = Facts(strs={"self.units": su}, nulls={"other": False}, types={"other": "float"}, zeros={"other": case == "both zero", "self.amount": case == "both zero"})
+            alg = Alg(atom_map={"other": other, "self.amount": a_s})
+
+            def on_assign(stmt, facts, alg):
+                v = stmt.value if isinstance(stmt, ast.Assign) else None
+                if isinstance(v, ast.Call) and isinstance(v.func, ast.Attribute) and v.func.attr in tables and isinstance(stmt.targets[0], ast.Name) and not v.args:
+                    tab = tables[v.func.attr]
+                    tgt = stmt.targets[0].id
+                    if su in tab:
+                        facts.nulls[tgt] = False
+                        alg.env[tgt] = a_s * const(tab[su])
+                    else:
+                        facts.nulls[tgt] = True
+                    return True
+                return False
+
+            cons = "Length.__eq__[%s == number, %s]" % (su or "''", case)
+            out = walk(body, facts, alg, ctx.m, "R12.5", cons, on_assign=on_assign)
+            got = None
+            if out.kind == "return":
+                v = out.node
+                if isinstance(v, ast.Constant) and isinstance(v.value, bool):
+                    got = v.value
+                elif isinstance(v, ast.Compare) and isinstance(v.left, ast.Call) and ast.unparse(v.left.func) == "abs" and isinstance(v.ops[0], (ast.LtE, ast.Lt)) and ast.unparse(v.comparators[0]) == "ERROR":
+                    d = v.left.args[0]
+                    got = approx_eq(alg.ev(d.left), alg.ev(d.right)) if isinstance(d, ast.BinOp) and isinstance(d.op, ast.Sub) else None
+                else:
+                    try:
+                        got = decide(v, facts, ctx.m)
+                    except Exception:
+                        got = None
+            want = case in ("equal", "both zero")
+            ctx.ob("R12.5", cons, got is not None and got == want, "answers %s" % got, out.stmt.lineno if out.stmt is not None else eq.lineno,
+                   "a length equals a number exactly when it resolves to that number of user units (an unresolvable length only equals 0 when it is itself 0)")
